@@ -42,6 +42,17 @@ MeanOK == \A a \in 1..Len(R.avr) :
                         LET v == Val(R.cname[k], g.rk, Pk) IN
                         IF v[1] THEN <<TRUE, DetOf(GroupsOf(R.cname[k])[CHOOSE j \in Find(R.cname[k], g.rk) : TRUE], g.dl[n])>>
                         ELSE <<FALSE, 0>>], g.dv[n], R.eps)
+(* a single-conformation input reports exactly its only conformation, identical models change nothing: when all
+   conformations that contain a group list the same determinants (label and value, as multisets - the lists arrive
+   sorted), the average lists exactly those *)
+ListNear(x, y) == Len(x) = Len(y) /\ \A n \in 1..Len(x) : n <= Len(y) => x[n][1] = y[n][1] /\ x[n][2] - y[n][2] <= R.eps /\ y[n][2] - x[n][2] <= R.eps
+AgreeingAverageToThemselves ==
+   \A a \in 1..Len(R.avr) :
+      LET g == R.avr[a]
+          holders == {k \in 1..Len(R.cname) : Find(R.cname[k], g.rk) # {}}
+          listOf(k) == GroupsOf(R.cname[k])[CHOOSE j \in Find(R.cname[k], g.rk) : TRUE].full
+      IN (holders # {} /\ \A k1, k2 \in holders : ListNear(listOf(k1), listOf(k2))) =>
+            \A k \in holders : ListNear(g.full, listOf(k))
 (* every group reported in some conformation is in the average, and exists in the average once *)
 ReportedUnion == \A k \in 1..Len(R.cname) : \A j \in 1..Len(GroupsOf(R.cname[k])) :
                     \E a \in 1..Len(R.avr) : R.avr[a].rk = GroupsOf(R.cname[k])[j].rk
